@@ -201,6 +201,10 @@ func (c *Ctx) pos(p token.Pos) string {
 
 func (c *Ctx) add(st Status, rule, key string, p token.Pos, format string, a ...any) {
 	c.Obls = append(c.Obls, Obligation{Rule: rule, Key: key, Status: st.String(), status: st, Pos: c.pos(p), Msg: fmt.Sprintf(format, a...)})
+	if pat := os.Getenv("JAMVERIF_LIST"); pat != "" && (pat == "1" || strings.Contains(rule, pat)) {
+		o := c.Obls[len(c.Obls)-1]
+		fmt.Fprintf(os.Stderr, "OBL %s %s [%s] %s: %s\n", o.Status, o.Rule, o.Key, o.Pos, o.Msg)
+	}
 }
 func (c *Ctx) OK(rule, key string, p token.Pos, format string, a ...any) {
 	c.add(Discharged, rule, key, p, format, a...)
